@@ -1149,7 +1149,7 @@ func wideSection(run *lib.Run, seed uint64, n int, only int) {
 // ---- ranges holding a number of keys at an internal batch threshold ----
 
 func localConst(name string) int {
-	b, err := os.ReadFile("../coq/Gen/LocalConsts.v")
+	b, err := os.ReadFile("../coq/Gen/LocalConstsKV.v")
 	if err != nil {
 		fmt.Fprintln(os.Stderr, "cannot read the generated constants:", err)
 		os.Exit(2)
